@@ -63,7 +63,7 @@ CLAIMED.update({
 })
 
 CLAIMED.update({
- "C06": dict(tech="differential replay monitor: recorded histories re-executed in independent OS processes (fresh map seeds, different GOMAXPROCS/GOGC, interleaved serialised CheckTx/Query/Simulate), step digests compared; Go race detector on the replay in the thorough tier",
+ "C06": dict(tech="differential replay monitor: recorded histories re-executed in independent OS processes (fresh map seeds, different GOMAXPROCS/GOGC, shifted wall clock, interleaved serialised CheckTx/Query/Simulate, recorded simulate-only transactions, node restarts on the same database, mid-block crashes with re-execution of the block), step digests compared; Go race detector on the replay in the thorough tier",
              text="Each generated history is executed by 2 (quick) or 3 (thorough, one under -race) independent processes and compared step by step on AppHash, tx code/gas/data and ordered events. Map-order, wall-clock or process-local dependence shows up as a digest mismatch between processes; the race detector reports unsynchronised access in canine-chain frames.",
              ref="5/C06",
              note="Trusted base: recorder/replayer in harness/chain/record.go, Go runtime map-seed randomisation per process as the source of iteration-order diversity, race detector. Concurrent ABCI calls are deliberately not generated (TM 0.34 serialises them)."),
@@ -99,7 +99,7 @@ m = {
  ],
  "checks": [],
  "not_applicable": [],
- "notes": "Family: runtime monitoring. See DESIGN.md. known_findings.json lists recorded genuine defects (status known) and repaired ones (status fixed).",
+ "notes": "Family: runtime monitoring. See DESIGN.md. known_findings.json lists recorded genuine defects (status known) and repaired ones (status fixed). Common to every check: every fourth case runs with node restarts injected after Commit (a new application instance on the same database, counter node_restarts_injected in the evidence); the checks of C01-C03, C07-C10, C12, C15-C18 additionally walk the listings their property is about page by page and compare with the one-shot listing (counters paged_listings_compared / paged_records_compared).",
 }
 for p in props:
     pid = p["id"]
